@@ -258,7 +258,7 @@ class PythonRegex(regex.Regex):
         if not bracket_content or bracket_content[0] != "^":
             return bracket_content
         # We inverse everything
-        return [x for x in ESCAPED_PRINTABLES if x not in bracket_content]
+        return [x for x in ESCAPED_PRINTABLES if x not in bracket_content[1:]]
 
     @staticmethod
     def _insert_or(l_to_modify):
